@@ -11,12 +11,16 @@ COQ_HEADER = ('From Coq Require Import List ZArith NArith Floats.PrimFloat. Impo
 COQ_RUNNER = 'bad_find_zerox'
 COQ_TYPES = ('list float * list Z * list Z', 'result (list Z * list Z)')
 SHARD = 400
-RULE = ('(a) extrema returned by find_extrema on generated signals (first_extrema peak/trough, several boundaries); '
+RULE = ('(a) extrema returned by find_extrema on generated signals (first_extrema peak / trough / None - None gives '
+        'sequences that start and end with the same kind -, several boundaries); '
         '(b) every signal over the alphabet {-1,0,1} (and {0,1,2}) up to length 5 (quick) / 6 (thorough) x every alternating '
         'peak/trough index sequence on it, plus random samples at lengths up to 9; non-trivial = at least one rise and one '
         'decay and a flank of at least 3 samples')
 EXHAUSTIVE = {'quick': True, 'thorough': True}
-ASSUMPTIONS = ['signals are finite', 'peaks/troughs strictly increasing, alternating, within the signal']
+ASSUMPTIONS = ['signals are finite', 'peaks/troughs strictly increasing, alternating, within the signal',
+               'statement oracle: a flank that is neither identically zero nor inverted and on which no sample pair straddles '
+               'the half-height (e.g. flat non-zero flank) has no value stated by the property: only the NUMBER of midpoints '
+               'is judged there; the value the code returns (segment centre) is compared with the model only']
 
 
 def _alt_sequences(n, rng=None, limit=None):
@@ -56,7 +60,7 @@ def cases(rng, tier):
     for _ in range(nsig):
         s = gen.signal(rng, max_len=600)
         out.append({'kind': 'signal/' + s['kind'], 'sig': gen.hexlist(s['sig']), 'fs': s['fs'], 'f_range': list(s['f_range']),
-                    'boundary': rng.choice([0, 1, 5]), 'first': rng.choice(['peak', 'trough'])})
+                    'boundary': rng.choice([0, 1, 5]), 'first': rng.choice(['peak', 'trough', None])})
     return out
 
 
@@ -84,6 +88,7 @@ def run_impl(c):
 
 
 def _flank(sig, s, e, rise):
+    """Midpoint the statement prescribes for the flank s..e, or None where the statement prescribes no value."""
     seg = sig[s:e + 1]
     half = s + len(seg) // 2
     if all(v == 0 for v in seg):
@@ -96,10 +101,14 @@ def _flank(sig, s, e, rise):
     else:
         xs = [k for k in range(len(seg) - 1) if seg[k] > mid >= seg[k + 1]]
     if not xs:
-        return half
+        return None   # the half-height is never crossed in the flank's direction: not covered by the statement
     m = len(xs)
     med = xs[m // 2] if m % 2 else (xs[m // 2 - 1] + xs[m // 2]) // 2
     return s + med
+
+
+def _agree(got, want):
+    return len(got) == len(want) and all(w is None or g == w for g, w in zip(got, want))
 
 
 def oracle(c, o):
@@ -110,14 +119,13 @@ def oracle(c, o):
     merged = sorted([(i, 'p') for i in p] + [(i, 't') for i in t])
     want_r, want_d = [], []
     for (a, ka), (b, kb) in zip(merged, merged[1:]):
-        if ka == kb:
+        if ka == kb or a == b:
             return None   # not alternating: outside the property
         (want_r if ka == 't' else want_d).append(_flank(sig, a, b, ka == 't'))
     if 'err' in o:
         return 'raised %s on an alternating extrema sequence' % o['err']
-    if o['rises'] != want_r or o['decays'] != want_d:
-        return 'midpoints differ: got rises %s decays %s, want %s %s' % (o['rises'], o['decays'], want_r, want_d)
-    # every midpoint lies between the extrema it separates
+    if not _agree(o['rises'], want_r) or not _agree(o['decays'], want_d):
+        return 'midpoints differ: got rises %s decays %s, want %s %s (None = any value)' % (o['rises'], o['decays'], want_r, want_d)
     return None
 
 
